@@ -255,7 +255,7 @@ func (e *checkEnv) runCheck(t testing.TB, q *ketoapi.RelationTuple, depth int, p
 // on (it returns at once when the context it was given is done, else after
 // slowStorage). A handler and engine that hand the request's context down
 // return within milliseconds.
-const slowStorage = 4 * time.Second
+const slowStorage = 8 * time.Second
 
 var slowCancels int // cancellations that took the slow path; after three the point is made and each further one would cost seconds
 
@@ -264,7 +264,7 @@ func (e *checkEnv) transportCancel(t testing.TB, transport string, q *ketoapi.Re
 		return 0, "skipped"
 	}
 	defer func() {
-		if ms > 2000 {
+		if ms > 4000 {
 			slowCancels++
 		}
 	}()
